@@ -140,9 +140,10 @@ func ResourcePayload(t *rapid.T, ts *TypeSpec, o PayloadOpts) *PayloadCase {
 
 		switch {
 		case mode == 0:
-			// (links and meta may be empty objects, null, or not there at all)
+			// (links and meta may be empty objects, null, or not there at all;
+			// so may the relationship object itself: a null member)
 			f.Form = "links-only"
-			f.Text = rapid.SampledFrom([]string{`{"links":{"self":"/x","related":"/y"}}`, `{"links":{"self":"/x","related":"/y"}}`, `{"links":{}}`, `{"links":null}`, `{}`}).Draw(t, "linksonly-"+r.FromName)
+			f.Text = rapid.SampledFrom([]string{`{"links":{"self":"/x","related":"/y"}}`, `{"links":{"self":"/x","related":"/y"}}`, `{"links":{}}`, `{"links":null}`, `{}`, `null`}).Draw(t, "linksonly-"+r.FromName)
 		case mode == 1:
 			f.Form = "meta-only"
 			f.Text = rapid.SampledFrom([]string{`{"meta":{"data":1}}`, `{"meta":{"data":1}}`, `{"meta":{}}`, `{"meta":null,"links":{}}`}).Draw(t, "metaonly-"+r.FromName)
